@@ -174,7 +174,15 @@ func (w *World) end(call string, acked int64) {
 }
 
 func (w *World) failf(props string, format string, a ...any) {
-	w.Dis = append(w.Dis, Dis{Props: strings.Split(props, ","), Msg: fmt.Sprintf(format, a...), Fatal: w.inApply > 0 && w.inObserve == 0})
+	w.Dis = append(w.Dis, Dis{Props: strings.Split(props, ","), Msg: fmt.Sprintf(format, a...)})
+}
+
+// fatalf records a disagreement after which model and log may have diverged
+// (wrong offsets assigned, messages reported deleted that were not live ...):
+// the state is reported but not expanded. Everything else is expanded, so
+// that one property's disagreement does not hide what follows from it.
+func (w *World) fatalf(props string, format string, a ...any) {
+	w.Dis = append(w.Dis, Dis{Props: strings.Split(props, ","), Msg: fmt.Sprintf(format, a...), Fatal: true})
 }
 
 // Failf lets engines record a disagreement.
@@ -309,7 +317,7 @@ func (w *World) apply(kind, arg string) bool {
 		}
 		del, size, err := w.L.Delete(set(ints(arg)))
 		if len(del) != 0 || size != 0 {
-			w.failf("C12", "deleting %v again deleted %d messages (size %d, err %v)", ints(arg), len(del), size, err)
+			w.fatalf("C12", "deleting %v again deleted %d messages (size %d, err %v)", ints(arg), len(del), size, err)
 		}
 		return true
 	case "DM":
@@ -443,11 +451,11 @@ func (w *World) publish(arg string) bool {
 		}
 	}()
 	if next != w.M.Next+int64(len(msgs)) {
-		w.failf("C02", "Publish(%d msgs) returned %d, want %d", len(msgs), next, w.M.Next+int64(len(msgs)))
+		w.fatalf("C02", "Publish(%d msgs) returned %d, want %d", len(msgs), next, w.M.Next+int64(len(msgs)))
 	}
 	for i := range msgs {
 		if msgs[i].Offset != want[i].Off {
-			w.failf("C02", "Publish wrote back offset %d for message %d, want %d", msgs[i].Offset, i, want[i].Off)
+			w.fatalf("C02", "Publish wrote back offset %d for message %d, want %d", msgs[i].Offset, i, want[i].Off)
 		}
 		if msgs[i].Time.UnixMicro() != want[i].T {
 			w.failf("C01", "Publish left time %d in message %d, want %d", msgs[i].Time.UnixMicro(), i, want[i].T)
@@ -528,18 +536,18 @@ func (w *World) checkDeleted(what string, req map[int64]struct{}, deleted []mode
 	var wantSize int64
 	for _, d := range deleted {
 		if _, ok := req[d.Off]; !ok {
-			w.failf("C12", "%s reported offset %d which was not requested", what, d.Off)
+			w.fatalf("C12", "%s reported offset %d which was not requested", what, d.Off)
 		}
 		i := w.M.Index(d.Off)
 		if i < 0 {
-			w.failf("C12", "%s reported offset %d which was not live", what, d.Off)
+			w.fatalf("C12", "%s reported offset %d which was not live", what, d.Off)
 			continue
 		}
 		if !w.M.Live[i].Same(d) {
-			w.failf("C12", "%s reported %v, live message was %v", what, d, w.M.Live[i])
+			w.fatalf("C12", "%s reported %v, live message was %v", what, d, w.M.Live[i])
 		}
 		if rm[d.Off] {
-			w.failf("C12", "%s reported offset %d twice", what, d.Off)
+			w.fatalf("C12", "%s reported offset %d twice", what, d.Off)
 		}
 		rm[d.Off] = true
 		wantSize += w.StorageSize(w.M.Live[i], versionOf(bases, vers, d.Off))
